@@ -187,6 +187,34 @@ class FakeConnection:
         # what is selected
         sel = self._select_expr(p)
         p.take('word', 'FROM')
+        if p.peek() == ('sym', '('):
+            # derived table: SELECT COUNT(*) FROM (SELECT DISTINCT "c" FROM t [WHERE "c" IS [NOT] NULL]) [AS] alias
+            if sel != ('count*',):
+                raise SQLDoubleUnsupported('only COUNT(*) over a derived table')
+            p.take('sym', '(')
+            p.take('word', 'SELECT')
+            p.take('word', 'DISTINCT')
+            col = p.take('ident')
+            p.take('word', 'FROM')
+            t = p.take('word')
+            if t != self.table:
+                raise SQLDoubleError('no such table: %r' % t)
+            vals = list(self._col(col))
+            if p.maybe('word', 'WHERE'):
+                c2 = p.take('ident')
+                p.take('word', 'IS')
+                neg = p.maybe('word', 'NOT')
+                p.take('word', 'NULL')
+                flt = self._col(c2)
+                vals = [v for v, f in zip(vals, flt) if (f is not None) == neg]
+            p.take('sym', ')')
+            p.maybe('word', 'AS')
+            if p.peek()[0] == 'word' and p.peek()[1] not in _KEYWORDS:
+                p.take('word')
+            p.done()
+            # DISTINCT keeps one row for all the NULLs
+            nn = _distinct([v for v in vals if v is not None])
+            return [(len(nn) + (1 if any(v is None for v in vals) else 0),)]
         t = p.take('word')
         if t == 'sqlite_master':
             # table existence probes
